@@ -384,6 +384,7 @@ func lastFramePolarity(c *core.Ctx, dec *ssa.Function, v int64) {
 	fm := buildFrameModel(dec)
 	if fm.length != nil {
 		nTests, good := 0, true
+		var cutShort *ssa.BasicBlock
 		for _, b := range dec.Blocks {
 			iff, ok := b.Instrs[len(b.Instrs)-1].(*ssa.If)
 			if !ok {
@@ -414,6 +415,24 @@ func lastFramePolarity(c *core.Ctx, dec *ssa.Function, v int64) {
 			if again(b.Succs[shortIdx]) || !again(b.Succs[1-shortIdx]) {
 				good = false
 			}
+			// … and unconditionally so: no path from the full-frame edge leaves the function before the next length was read
+			lenBlk := fm.length.call.Block()
+			for blk := range core.Reach(b.Succs[1-shortIdx], nil, func(x *ssa.BasicBlock) bool { return x == lenBlk }) {
+				if blk == lenBlk {
+					continue
+				}
+				if _, isRet := blk.Instrs[len(blk.Instrs)-1].(*ssa.Return); isRet {
+					cutShort = blk
+				}
+			}
+		}
+		if nTests > 0 {
+			pos := dec.Pos()
+			if cutShort != nil {
+				pos = cutShort.Instrs[len(cutShort.Instrs)-1].Pos()
+			}
+			c.Check(cutShort == nil, "full-frame-always-continues@"+fname(dec), pos, "after a frame of the maximum size the next length is read on every path",
+				"after a frame of the maximum size the reader can return without reading the next length: a message longer than the point where it stops is handed out cut off (the rest stays in the stream and is taken for the next message)")
 		}
 		c.Check(good && nTests > 0, "reader-last-frame-polarity@"+fname(dec), dec.Pos(), "a short frame ends the message, a full frame is followed by the next length read",
 			"the last-frame test is inverted: after a full frame the reader stops (the message is cut at 1024 bytes), after the short last frame it goes on reading and swallows the next message")
